@@ -55,7 +55,7 @@ CLAIMED = {
     "C09": dict(
         technique="TLA+ fine-grained specs LatchImpl (atomic counter vs. notified_/queue under the lock) and BarrierImpl (tournament tree of ticket CASes, completion, phase publication) model-checked by TLC + abstract spec LbeoAbs with TLC trace validation of latch/barrier/event/call_once histories from the real code",
         text="TLC explores every interleaving of the latch protocol (4 participants mixing count_down/arrive_and_wait/wait) and of the barrier's tournament arrival for 3, 4 (thorough: 5) participants x 2 phases with any start node, proving no early return/departure, completion exactly once per phase and termination, and that the two seeded variants fail; real histories (participants on tasks and OS threads, more participants than workers, drops, throwing call_once bodies, simultaneous arrive_and_wait storms) must be behaviours of LbeoAbs, whose quiescence rule rejects a waiter stuck after the count reached zero / the phase advanced",
-        note="sequential consistency; sampled schedules for the real code; barrier expected_adjustment (drops) only in the abstract spec and traces, not in BarrierImpl",
+        note="sequential consistency; sampled schedules for the real code; arrive_and_drop is modelled in BarrierDropImpl for one dropper",
         design="5/C09"),
     "C19": dict(
         technique="TLA+ fine-grained spec PuSuspendImpl (running/pre_sleep/sleeping, pu mutex, notify loop, select_active_pu) model-checked by TLC + abstract spec PuAbs with TLC trace validation of suspend/resume/submit histories from a real second pool",
